@@ -24,3 +24,6 @@ package k_nearest_nodes
 //@   trusted
 //@   ensures only-the-pushed-element-is-new: forall k krpc.NodeInfoAddrPort :: kmem(result, k) ==> kmem(me, k) || k == elem.Key
 //@   ensures data-stays-with-its-contact: forall k krpc.NodeInfoAddrPort :: kmem(result, k) ==> kdata(result, k) == (k == elem.Key ? elem.Data : kdata(me, k))
+//@ func dht/k-nearest-nodes.New
+//@   trusted
+//@   ensures empty: forall c krpc.NodeInfoAddrPort :: !kmem(result, c)
